@@ -123,6 +123,24 @@ def c10_2(ctx):
                 anc = pm.get(anc)
             ivn = U(iv) if iv is not None else '1'
             pos = any(cn in (NS('%s > 0' % ivn), NS('%s >= 1' % ivn)) for cn in conds) or (const(iv) or 0) > 0
+            # the direction guard must be executed on every path to this call: an earlier sibling statement of one of the enclosing blocks
+            guarded = False
+            node2 = st
+            anc2 = pm.get(st)
+            while anc2 is not None:
+                for field in ('body', 'orelse'):
+                    lst = getattr(anc2, field, None)
+                    if isinstance(lst, list) and node2 in lst:
+                        for prev in lst[:lst.index(node2)]:
+                            if isinstance(prev, ast.If) and any(isinstance(r, ast.Raise) for r in prev.body) and N(prev.test) in (NS('(t1 - t0).days * %s < 0' % ivn), NS('(t1 - t0).days * %s <= 0' % ivn)):
+                                guarded = True
+                if isinstance(anc2, ast.FunctionDef):
+                    break
+                node2 = anc2
+                anc2 = pm.get(anc2)
+            if pos and not guarded:
+                ctx.fail(fn, st, 'rrule(dtstart = t0, until = t1) is reachable without passing the direction guard `(t1 - t0).days * %s < 0 -> raise`: a positive period with t1 before t0 returns [] instead of raising' % ivn,
+                         witness="drange(dt(2020,1,10), dt(2020,1,1), '1d') == []")
             if not pos:
                 ctx.fail(fn, st, 'rrule(dtstart = t0, until = t1, interval = %s) is reachable with a negative interval / t0 > t1: rrule then yields nothing and drange returns []' % ivn,
                          witness="drange(dt(2000,1,10), dt(2000,1,5), '-1d') == []")
@@ -148,6 +166,22 @@ def c10_3(ctx):
     ctx.count(1)
     if not dr or N(dr[0].targets[0]) != '(t0, t1)' or [U(a) for a in dr[0].value.args] != ['t0', 't1']:
         ctx.fail(fn, fn.node, 'endpoints are not resolved with date_range(t0, t1)')
+    # the bump keeps its kind until the dispatch: an integer bump is only defined for endpoints a whole number of days apart, so nothing may be
+    # converted INTO an int (e.g. timedelta(n) -> n) on the way
+    ctx.count(1)
+    pm = parent_map(fn.node)
+    for s in body_nodes(fn.node):
+        if isinstance(s, ast.Assign) and U(s.targets[0]) == 'bump':
+            v = s.value
+            txt = U(v)
+            if N(v) in (NS('1 if t0 < t1 else -1'), 'bump.lower()'):
+                continue
+            if '.days' in txt or txt.startswith('int(') or 'total_seconds' in txt:
+                g = pm.get(s)
+                ctx.fail(fn, g if isinstance(g, ast.If) else s, 'a bump is converted into an integer before the dispatch (`%s`): the integer branch enumerates whole days from min(t0, t1), so a timedelta bump between intraday endpoints no longer starts at t0 / raises for spans shorter than a day' % U(s),
+                         witness='drange(dt(2020,1,5,12), dt(2020,1,1), timedelta(-1))')
+            else:
+                raise AnalysisError('unrecognised rebinding of bump in drange: %s' % U(s))
     ctx.count(1)
     df = [s for s in fn.body if isinstance(s, ast.If) and N(s.test) == NS('bump is None')]
     if not df or N(df[0].body[0].value) != NS('1 if t0 < t1 else -1'):
